@@ -433,7 +433,7 @@ func (g *generator) walkEnum(schema *schemaparser.Schema) (ast.Type, error) {
 		})
 	}
 
-	return ast.NewEnum(values), nil
+	return ast.NewEnum(values, ast.Default(unwrapJSONNumber(schema.Default))), nil
 }
 
 func (g *generator) walkObject(schema *schemaparser.Schema) (ast.Type, error) {
